@@ -3,7 +3,7 @@ import BS.Model.WorkerTask
 # C12 (worker side) — whatever calls overlap, a task the worker reports OK has its output
 
 For any number of `Worker.Run` and `Worker.Discard` calls for one task, issued and interleaved in any way (the originals
-of retried RPCs included): at most one call holds the task at a time — it is executed by one call and awaited by the
+of retried RPCs included), as long as no *waiting* call's context is cancelled (`NoCancel`; see `cancel_breaks_one_holder`): at most one call holds the task at a time — it is executed by one call and awaited by the
 others, never executed twice at once nor executed while it is being discarded (`one_holder`) —; whenever the task is OK
 the store holds its output (`ok_has_output`), so every success a `Run` call reports is backed by output
 (`success_reply_has_output`).  A `Run` call that waited while the output was being discarded reports `ErrTaskLost`; were a
@@ -55,9 +55,10 @@ theorem holder_running (s : S) (i : Nat) (old : Th) (hold : s.th i = old) (ha : 
   · exact hr
   · rw [if_neg hr] at h1; omega
 
-theorem step_inv (s : S) (h : Inv s) (e : Ev) : Inv (step true s e) := by
+theorem step_inv (s : S) (h : Inv s) (e : Ev) (hnc : e.isCancel = false) : Inv (step true s e) := by
   obtain ⟨h1, h2⟩ := h
   cases e with
+  | cancel i => cases hnc
   | runEnter i =>
     simp only [step]
     split
@@ -127,29 +128,40 @@ theorem inv_init (n : Nat) : Inv (init n) := by
   | zero => simp
   | succ n ih => simp [List.replicate_succ, act] at ih ⊢
 
-theorem reachable_inv (n : Nat) (evs : List Ev) : Inv (run true (init n) evs) := by
+/-- histories in which no waiting call's context is cancelled -/
+def NoCancel (evs : List Ev) : Prop := ∀ e ∈ evs, e.isCancel = false
+
+theorem reachable_inv (n : Nat) (evs : List Ev) (hnc : NoCancel evs) : Inv (run true (init n) evs) := by
   suffices ∀ s, Inv s → Inv (run true s evs) from this _ (inv_init n)
   induction evs with
   | nil => intro s h; exact h
-  | cons e es ih => intro s h; exact ih _ (step_inv s h e)
+  | cons e es ih =>
+    intro s h
+    exact ih (fun e' he' => hnc e' (List.mem_cons_of_mem _ he')) _ (step_inv s h e (hnc e (by simp)))
 
 /-- **at most one call holds the task**: it is never executed twice at once, nor executed while being discarded -/
-theorem one_holder (n : Nat) (evs : List Ev) : active (run true (init n) evs).ths ≤ 1 := by
-  have := (reachable_inv n evs).1
+theorem one_holder (n : Nat) (evs : List Ev) (hnc : NoCancel evs) : active (run true (init n) evs).ths ≤ 1 := by
+  have := (reachable_inv n evs hnc).1
   split at this <;> omega
 
 /-- **a task the worker holds for OK has its output**, under every interleaving of any number of calls -/
-theorem ok_has_output (n : Nat) (evs : List Ev) (h : (run true (init n) evs).st = .ok) :
-    (run true (init n) evs).out = true := (reachable_inv n evs).2 h
+theorem ok_has_output (n : Nat) (evs : List Ev) (hnc : NoCancel evs) (h : (run true (init n) evs).st = .ok) :
+    (run true (init n) evs).out = true := (reachable_inv n evs hnc).2 h
 
 /-- every success a `Run` call reports is given in a state in which the task is OK with its output in the store -/
-theorem success_reply_has_output (s : S) (h : Inv s) (e : Ev) (i : Nat)
+theorem success_reply_has_output (s : S) (h : Inv s) (e : Ev) (hnc : e.isCancel = false) (i : Nat)
     (hr : (step true s e).replies = (i, .ok) :: s.replies) :
     (step true s e).st = .ok ∧ (step true s e).out = true := by
-  have hinv := step_inv s h e
+  have hinv := step_inv s h e hnc
   suffices (step true s e).st = .ok from ⟨this, hinv.2 this⟩
   cases e <;> simp only [step] at hr ⊢ <;> (try split at hr) <;> (try split at hr) <;> (try split at hr) <;>
     simp_all [S.setTh]
+
+/-- what the cancellation of a waiting call's context makes possible (the code's behaviour, outside the theorems above):
+call 1 waits for call 0, its context is cancelled — the task is marked failed although call 0 still executes it — and
+call 2 then takes the "failed" task and executes it a second time, concurrently -/
+theorem cancel_breaks_one_holder :
+    active (run true (init 3) [.runEnter 0, .runEnter 1, .cancel 1, .runEnter 2]).ths = 2 := by decide
 
 /-- were a LOST task taken for success by a waiting Run call (not what the code does): a Run call that waits while a
 Discard call deletes the output would report success and mark the task OK — a task held for OK whose output is gone -/
